@@ -442,6 +442,80 @@ def tables_mutated_through_calls(model, tables):
     return found
 
 
+NONFRESH_METHODS = {"get", "setdefault", "pop", "popitem", "__getitem__"}
+
+
+def _fresh_value(v, fresh_names):
+    """does the expression evaluate to an object created on the spot (so that changing it changes nobody else's data)?"""
+    if isinstance(v, (ast.List, ast.Dict, ast.Set, ast.ListComp, ast.DictComp, ast.SetComp, ast.Constant, ast.JoinedStr, ast.Tuple)):
+        return True
+    if isinstance(v, ast.Call):
+        if isinstance(v.func, ast.Attribute) and v.func.attr in NONFRESH_METHODS:
+            return False
+        if dotted(v.func) in ("getattr",):
+            return False
+        return True
+    if isinstance(v, ast.BinOp):
+        return True
+    if isinstance(v, ast.Name):
+        return v.id in fresh_names
+    return False           # attribute reads, subscripts, ``a or b`` / conditional expressions over them: somebody else's object
+
+
+def impure_mutations(fn):
+    """in-place changes a function makes to objects it did not create itself (its arguments, what hangs off them, module state):
+    [(line, what)] - for functions the properties treat as pure (the image identity)"""
+    params = set(a.arg for a in fn.args.posonlyargs + fn.args.args + fn.args.kwonlyargs)
+    assigns = {}
+    for n in ast.walk(fn):
+        if isinstance(n, ast.Assign):
+            for t in n.targets:
+                if isinstance(t, ast.Name):
+                    assigns.setdefault(t.id, []).append(n.value)
+        elif isinstance(n, (ast.For, ast.comprehension)):
+            for x in ast.walk(n.target):
+                if isinstance(x, ast.Name):
+                    assigns.setdefault(x.id, []).append(None)        # drawn from an iterable: an element of something else
+    fresh = set()
+    changed = True
+    while changed:
+        changed = False
+        for name, vals in assigns.items():
+            if name not in fresh and name not in params and all(v is not None and _fresh_value(v, fresh) for v in vals):
+                fresh.add(name)
+                changed = True
+    out = []
+
+    def base(node):
+        while isinstance(node, (ast.Attribute, ast.Subscript)):
+            node = node.value
+        return node
+    for n in ast.walk(fn):
+        tgt = None
+        if isinstance(n, ast.Call) and isinstance(n.func, ast.Attribute) and n.func.attr in MUTATORS:
+            tgt = n.func.value
+        elif isinstance(n, (ast.Assign, ast.Delete)):
+            for t in n.targets:
+                if isinstance(t, (ast.Subscript, ast.Attribute)):
+                    tgt = t.value
+        elif isinstance(n, ast.AugAssign) and isinstance(n.target, (ast.Name, ast.Subscript, ast.Attribute)):
+            tgt = n.target if not isinstance(n.target, ast.Name) else n.target
+        if tgt is None:
+            continue
+        b = base(tgt)
+        if isinstance(b, ast.Name):
+            if isinstance(tgt, ast.Name) and isinstance(n, ast.AugAssign) and b.id in fresh:
+                continue
+            if b.id in fresh and isinstance(tgt, ast.Name):
+                continue          # the fresh object itself
+            if b.id in fresh and not isinstance(tgt, ast.Name):
+                continue          # inside a fresh object (shallow, but the function built it)
+            out.append((n.lineno, ast.unparse(tgt)))
+        elif isinstance(b, ast.Call):
+            continue
+    return out
+
+
 KEYED = ("__setitem__", "__getitem__", "__delitem__", "__contains__", "get", "pop", "setdefault", "has_key")
 LOOKUPS = ("__setitem__", "__getitem__", "__contains__", "get")
 
@@ -504,6 +578,10 @@ class K(object):
         self.shared.add(x)
 def remember(x):
     TABLE.append(x)
+def identity(image):
+    names = image.names or []
+    names.sort()
+    return tuple(names)
 class D(dict):
     def __setitem__(self, key, value):
         dict.__setitem__(self, key.lower(), value)
@@ -520,9 +598,12 @@ def _selfcheck():
     fill = [f for f in k.body if isinstance(f, ast.FunctionDef) and f.name == "fill"][0]
     if not list(_attr_mutations(fill, "self", "shared")):
         raise AnalysisError("R-FRESH-CLASS-STATE: the embedded positive example is no longer recognised")
-    rem = [n for n in tree.body if isinstance(n, ast.FunctionDef)][0]
+    rem = [n for n in tree.body if isinstance(n, ast.FunctionDef) and n.name == "remember"][0]
     if not list(_mutations_of(ast.walk(rem), lambda node: ("x", "TABLE") if dotted(node) == "TABLE" else None)):
         raise AnalysisError("R-TABLE-FROZEN: the embedded positive example is no longer recognised")
+    ident = [n for n in tree.body if isinstance(n, ast.FunctionDef) and n.name == "identity"][0]
+    if not impure_mutations(ident):
+        raise AnalysisError("R-IDENTITY-PURE: the embedded positive example is no longer recognised")
     if _is_mutable_value(tree.body[0].value) is not True:
         raise AnalysisError("R-TABLE-FROZEN: the embedded table is no longer recognised")
 
@@ -550,6 +631,12 @@ def apply_sharing(model, rep, pid):
         rep.ob("R-FRESH-CLASS-STATE", "%s:no-shared-class-level-container" % m.name, not bad, site=m.rel(),
                msg="" if not bad else "; ".join(bad[:3]), facts={"classes": len(m.classes)})
         n += 2
+    if pid in ("C02", "C09"):
+        g = model.function("images", "identify_image")
+        bad = impure_mutations(g.node)
+        rep.ob("R-IDENTITY-PURE", "images.identify_image", not bad, site=g.module.site(g.node),
+               msg="" if not bad else "identify_image changes objects it was given (%s): computing an image's identity must not "
+                                      "alter the image" % "; ".join("line %s: %s" % x for x in bad[:3]))
     tables, found = table_mutations(model)
     for k, where in tables_mutated_through_calls(model, tables).items():
         found.setdefault(k, []).extend(where)
